@@ -1,6 +1,7 @@
 package props
 
 import (
+	"fmt"
 	"github.com/AdguardTeam/urlfilter/filterlist"
 	"os"
 	"path/filepath"
@@ -464,9 +465,76 @@ func c12Run(c *core.Ctx, idx int) {
 			}
 		}
 	}
+	c12ListCopies(c, valid, reqs)
 	if c.WantSample() && c.Rng.Intn(60) == 0 {
 		c.Sample(map[string]any{"lines": batch[:6], "parsed": len(valid), "inert_lines": len(noise)})
 	}
+}
+
+// c12ListCopies loads the same lines as two lists with different ids: every
+// rule an engine returns carries the id of the list it was read from, so the
+// rules returned under one id are exactly those returned under the other.
+func c12ListCopies(c *core.Ctx, valid []string, reqs []*gen.Req) {
+	pairs := [][2]int{{1, 2}, {0, 16}, {3, 259}, {-1, 1}, {5, 65541}, {2, 1}}
+	ids := pairs[c.Rng.Intn(len(pairs))]
+	content := util.Lines(valid)
+	w := c12Witness{Lines: valid, What: fmt.Sprintf("the same lines as lists %d and %d", ids[0], ids[1])}
+	c.Guard("engines:list-copies", nil, w, func() {
+		s1, err1 := util.StorageIDs(ids[:], []string{content, content}, false)
+		s2, err2 := util.StorageIDs(ids[:], []string{content, content}, false)
+		if err1 != nil || err2 != nil {
+			return
+		}
+		ne := urlfilter.NewNetworkEngine(s1)
+		de := urlfilter.NewDNSEngine(s2)
+		for _, q := range reqs {
+			by := map[int][]string{}
+			short := map[string]bool{}
+			note := func(r *rules.NetworkRule) {
+				by[r.FilterListID] = append(by[r.FilterListID], r.RuleText)
+				// Rules without a five-character shortcut may be kept in the
+				// sequential table, which holds one rule per text.
+				// (so may rules whose shortcut is only a scheme.)
+				sh := strings.TrimPrefix(r.Shortcut, "|")
+				short[r.RuleText] = len(r.Shortcut) < 5 || len(r.Shortcut) < 10 && (strings.HasPrefix(sh, "ws") || strings.HasPrefix(sh, "http"))
+			}
+			if q.HostnameReq {
+				res, _ := de.MatchRequest(&urlfilter.DNSRequest{Hostname: q.Host, DNSType: q.DNSType, ClientName: q.ClientName, ClientIP: q.ClientIP, SortedClientTags: q.Tags})
+				for _, r := range res.NetworkRules {
+					note(r)
+				}
+				for _, r := range append(append([]*rules.HostRule(nil), res.HostRulesV4...), res.HostRulesV6...) {
+					by[r.FilterListID] = append(by[r.FilterListID], r.RuleText)
+				}
+			} else {
+				for _, r := range ne.MatchAll(q.Build()) {
+					note(r)
+				}
+			}
+			c.Eval(1)
+			c.Event("list_copy_comparisons", 1)
+			a, b := util.SortedSet(by[ids[0]]), util.SortedSet(by[ids[1]])
+			delete(by, ids[0])
+			delete(by, ids[1])
+			if len(a) > 0 {
+				c.Event("list_copy_comparisons_with_rules", 1)
+			}
+			var onlyFirst []string
+			for _, t := range util.Diff(a, b) {
+				if !short[t] {
+					onlyFirst = append(onlyFirst, t)
+				}
+			}
+			if len(onlyFirst) > 0 || len(util.Diff(b, a)) > 0 || len(by) > 0 {
+				wq := w
+				wq.Req = q
+				c.Violation("list-id-of-returned-rule", nil, map[string]any{"lines": valid, "ids": ids, "request": q, "under_first": a, "under_second": b, "other_ids": fmt.Sprint(by)},
+					"the same lines loaded as lists %d and %d: rules returned under %d: %q, under %d: %q, under other ids: %v", ids[0], ids[1], ids[0], a, ids[1], b, by)
+
+				break
+			}
+		}
+	})
 }
 
 func init() {
@@ -476,6 +544,7 @@ func init() {
 		Level: "exploration",
 		Rule: "per case 24 lines: grammar-rendered rules with every modifier kind, lines of the four bundled lists, regex-grammar rules, hosts and cosmetic lines and a table of ~130 hand-made hostile lines, half of them with 0..3 byte mutations (insert, delete, replace, duplicate a span, splice with another line), occasionally > 5 KiB; " +
 			"each line through NewRule (nil/rule/error trichotomy, Text()==TrimSpace(line), list id), NewNetworkRule, NewHostRule, NewCosmeticRule, every obtained rule through Match twice on 9 requests (URL and hostname, one built from the line itself), IsHigherPriority, NewMatchingResult, GetDNSBasicRule, DNSRewrites, and the whole batch through construction and querying of Engine, NetworkEngine, DNSEngine and CosmeticEngine; " +
+			"the parsed lines loaded as two lists with different ids (the rules returned under one id are those returned under the other); " +
 			"metamorphic: inserting the blank/comment/rejected lines anywhere, CRLF line ends and a missing final newline leave every engine answer unchanged; panics and dead workers are violations with the journalled input; non-trivial = line that parses to a rule; distinct by line",
 		Assumptions: []string{
 			"termination is monitored as bounded progress by the worker watchdog (inconclusive when it fires), not proved",
